@@ -19,7 +19,7 @@ type C10 struct{}
 
 func (C10) ID() string { return "C10" }
 func (C10) Rule() string {
-	return "scan half: rapid-generated trees (<=12 nodes, 1-3 roots) with 1-3 extractors (several wanting the same file), 0-2 standalone extractors, 0-2 detectors; per scenario: inode limits {1, V-1, V, V+1, one drawn value} around the measured visit count V, size limits {1, s-1, s, s+1} for every file size s present, and cancel() delivered at EVERY seam event k of the fault-free history plus 'cancelled before Scan'; image half (world I): layer archives with files of size L-1, L, L+1, 2L for MaxFileBytes=L; evaluation = one scan / one image load; non-trivial = work (an extraction on another file or a plugin run) remained after at least one cancellation instant; distinct = distinct scenario JSON"
+	return "scan half: rapid-generated trees (<=12 nodes, 1-3 roots; 1 in 4 single-root scenarios scan 1-3 explicitly requested paths) with 1-3 extractors (several wanting the same file), 0-2 standalone extractors, 0-2 detectors; per scenario: inode limits {1, V-1, V, V+1, one drawn value} around the measured visit count V, size limits {1, s-1, s, s+1} for every file size s present, and cancel() delivered at EVERY seam event k of the fault-free history plus 'cancelled before Scan'; image half (world I): layer archives with files of size L-1, L, L+1, 2L for MaxFileBytes=L; evaluation = one scan / one image load; non-trivial = work (an extraction on another file or a plugin run) remained after at least one cancellation instant; distinct = distinct scenario JSON"
 }
 
 func (C10) Gen(rt *rapid.T, tier string) any {
@@ -40,6 +40,18 @@ func (C10) Gen(rt *rapid.T, tier string) any {
 	}
 	cfg.Disk = genDisk(rt)
 	cfg.ReadSymlinks = rapid.Bool().Draw(rt, "readsymlinks")
+	if nroots == 1 && rapid.IntRange(0, 3).Draw(rt, "usepaths") == 3 {
+		// limits and cancellation also bind scans of explicitly requested paths
+		var cands []string
+		cfg.Roots[0].Tree.WalkTree(func(p string, x *Node) {
+			if p != "." && (x.Kind == "file" || x.Kind == "dir") {
+				cands = append(cands, p)
+			}
+		})
+		if len(cands) > 0 {
+			cfg.PathsToExtract = uniq(rapid.SliceOfN(rapid.SampledFrom(cands), 1, 3).Draw(rt, "paths"))
+		}
+	}
 	cfg.MaxInodes = rapid.IntRange(1, 14).Draw(rt, "inodelimit.extra")
 	return cfg
 }
@@ -133,7 +145,7 @@ func (C10) Run(t *testing.T, sc any) *sim.Outcome {
 			}
 			// independent of what the engine counts: the trees hold treeInodes entries (directories,
 			// files, symlinks, special files; no skip rule is configured in this check)
-			if treeInodes > L && o.Overall != plugin.ScanStatusFailed {
+			if len(cfg.PathsToExtract) == 0 && treeInodes > L && o.Overall != plugin.ScanStatusFailed {
 				out.Violate("inode-limit-not-failed", "inode-limit-not-failed:tree-count", "the scanned trees hold %d inodes (the engine counted %d), MaxInodes=%d, but overall status is %v; %s", treeInodes, V, L, o.Overall, ctxs)
 			}
 			if V <= L {
